@@ -24,9 +24,9 @@ func init() {
 		Assumptions: []string{"genomes are well-formed; module inputs and outputs are disjoint; nil is tested with == nil on the returned interface as a gonum caller does"},
 		Cases: func(tier string) int {
 			if tier == "quick" {
-				return 128
+				return 2560
 			}
-			return 1600
+			return 16000
 		},
 		Run: runC11,
 		Required: []string{"genomes", "genomes.modular", "genomes.with_disabled", "genomes.with_parallel_links", "organisms.sequential", "organisms.parallel",
